@@ -219,3 +219,49 @@ func pkgOfType(t types.Type) string {
 	}
 	return ""
 }
+
+func init() {
+	register(&Rule{
+		ID:    "C16.carry",
+		Props: []string{"C16", "C17"},
+		Doc:   "structure-preserving methods (Reverse, TransformXY, SnapToGrid, Densify, Simplify, ForceCW/CCW, forceOrientation, Force2D excluded) of the seven geometry types never return a bare zero literal or a constructor over a possibly-empty list: every returned geometry is built from the receiver's coordinates type (literal with the receiver's ctype, X{}.ForceCoordinatesType(recv type), New*(non-empty list), or a recursive structure-preserving call)",
+		Floor: 40,
+		Run:   runC16Carry,
+	})
+}
+
+var carryMethods = map[string]bool{"Reverse": true, "TransformXY": true, "SnapToGrid": true, "Densify": true, "Simplify": true, "ForceCW": true, "ForceCCW": true, "forceOrientation": true}
+
+func runC16Carry(c *Ctx) {
+	n := 0
+	for _, f := range c.P.Funcs {
+		if pkgOf(f) != "geom" || f.Parent() != nil || f.Signature.Recv() == nil || !carryMethods[f.Name()] {
+			continue
+		}
+		recvT := namedName(f.Signature.Recv().Type())
+		if !geomTypeNames[recvT] {
+			continue
+		}
+		rt := resultType0(f)
+		if rt == nil || namedName(rt) != recvT {
+			continue
+		}
+		recv := f.Params[0]
+		isSrc := func(v ssa.Value) bool {
+			// the receiver itself, any field of it, or any method call on it
+			b, _ := baseObject(v)
+			if b == ssa.Value(recv) {
+				return true
+			}
+			if call, ok := v.(*ssa.Call); ok && len(call.Call.Args) > 0 {
+				b, _ := baseObject(call.Call.Args[0])
+				return b == ssa.Value(recv)
+			}
+			return false
+		}
+		n += checkCtypeFlow(c, []*ssa.Function{f}, isSrc, "the receiver")
+	}
+	if n < 40 {
+		c.Errorf("only %d returns of structure-preserving methods found", n)
+	}
+}
